@@ -1,20 +1,24 @@
 #!/bin/bash
-# For every seeded change under /verif/seeded: apply it to /repo (rebased patch when present),
-# run the quick check of its property, record the outcome, undo the change.
-cd /verif
+# For every seeded change under seeded/: apply it to the tree under test (rebased patch when
+# present), run the quick check of its property, record the outcome, undo the change.
+# GOSX_REPO / GOSX_VERIF point the run at scratch copies (a git worktree of /repo and a copy
+# of /verif) so that it does not disturb other work; by default it uses /repo and /verif.
+REPO=${GOSX_REPO:-/repo}; VERIF=${GOSX_VERIF:-/verif}
+cd $VERIF
 out=seeded/RESULTS.tsv
 [ "$1" = "--resume" ] || : > $out
 for d in seeded/*/; do
   name=$(basename $d); id=${name%%-*}
+  [ -n "$ONLY" ] && ! echo "$name" | grep -qE "$ONLY" && continue
   grep -q "^$name	" $out 2>/dev/null && continue
-  patch=/verif/$d/patch.rebased.diff; [ -f $patch ] || patch=/verif/$d/patch.diff
+  patch=$VERIF/$d/patch.rebased.diff; [ -f $patch ] || patch=$VERIF/$d/patch.diff
   [ -f $patch ] || continue
-  if ! git -C /repo apply --check $patch 2>/dev/null; then echo -e "$name\tpatch-does-not-apply-on-the-fixed-tree\t-" >> $out; continue; fi
-  git -C /repo apply $patch
+  if ! git -C $REPO apply --check $patch 2>/dev/null; then echo -e "$name\tpatch-does-not-apply-on-the-fixed-tree\t-" >> $out; continue; fi
+  git -C $REPO apply $patch
   s=$(date +%s)
-  res=$(timeout 1800 ./bin/gosx check --prop $id --tier quick --no-evidence 2>&1); rc=$?
+  res=$(timeout 1800 $VERIF/bin/gosx check --prop $id --tier quick --no-evidence 2>&1); rc=$?
   e=$(date +%s)
-  git -C /repo checkout -- .
+  git -C $REPO checkout -- .
   line=$(echo "$res" | grep -E "harness=" | head -1 | sed 's/^ *//' | cut -c1-160)
   echo -e "$name\trc=$rc\t$((e-s))s\t$line" >> $out
 done
